@@ -206,10 +206,11 @@ Proof.
     + rewrite Hc, Hsum. lia.
 Qed.
 
-Lemma inv_promote p h : inv p -> inv (fst (promote p h)).
+Lemma inv_promote p h id : inv p -> inv (fst (promote p h id)).
 Proof.
   intros [Hnd [Hq Hc]]. unfold promote.
   destruct (find_obj h (objs p)) as [o|] eqn:Ef; [|cbn; unfold inv; auto].
+  destruct (negb (oid o =? id)); [cbn; unfold inv; auto|].
   destruct (executable o) eqn:Ee; [cbn; unfold inv; auto|].
   destruct (find_obj_some _ _ _ Ef) as [Hin Hh]. subst h.
   cbn [fst]. split; [|split]; cbn [objs quota cost].
@@ -229,12 +230,13 @@ Proof.
     + rewrite Hc. lia.
 Qed.
 
-Lemma inv_set_pricing p h pr : inv p -> inv (set_pricing p h pr).
+Lemma inv_set_pricing p h id pr : inv p -> inv (set_pricing p h id pr).
 Proof.
   intros [Hnd [Hq Hc]]. unfold set_pricing.
   destruct (find_obj h (objs p)) as [o|] eqn:Ef; [|unfold inv; auto].
   destruct (find_obj_some _ _ _ Ef) as [Hin Hh]. subst h.
-  destruct (negb (executable o) || _) eqn:Eal; [|unfold inv; auto].
+  destruct ((oid o =? id) && (negb (executable o) || _)) eqn:Eal; [|unfold inv; auto].
+  apply andb_true_iff in Eal. destruct Eal as [_ Eal].
   split; [|split]; cbn [objs quota cost].
   - rewrite hashes_replace. auto.
   - intro a. rewrite Hq. f_equal. unfold quota_of.
@@ -327,7 +329,7 @@ Proof.
   - destruct (price o) as [pc|].
     + destruct (energy (payer pc) <? aget (cost p) (payer pc) + pcost pc).
       * specialize (IH p). destruct (publish p energy t) as [[p' pub] bad]. cbn in *. apply sub_skip; auto.
-      * destruct (promote p (hash o)) as [p1 ok]. destruct ok.
+      * destruct (promote p (hash o) (oid o)) as [p1 ok]. destruct ok.
         -- specialize (IH p1). destruct (publish p1 energy t) as [[p' pub] bad]. cbn in *. apply sub_keep; auto.
         -- apply sub_skip. apply IH.
     + specialize (IH p). destruct (publish p energy t) as [[p' pub] bad]. cbn in *. apply sub_skip; auto.
@@ -356,8 +358,8 @@ Proof.
   - destruct (price o) as [pc|].
     + destruct (energy (payer pc) <? aget (cost p) (payer pc) + pcost pc).
       * specialize (IH p Hp). destruct (publish p energy t) as [[p' pub] bad]. auto.
-      * assert (Hp1 := inv_promote p (hash o) Hp).
-        destruct (promote p (hash o)) as [p1 ok]. cbn [fst] in Hp1. destruct ok.
+      * assert (Hp1 := inv_promote p (hash o) (oid o) Hp).
+        destruct (promote p (hash o) (oid o)) as [p1 ok]. cbn [fst] in Hp1. destruct ok.
         -- specialize (IH p1 Hp1). destruct (publish p1 energy t) as [[p' pub] bad]. auto.
         -- apply IH; auto.
     + specialize (IH p Hp). destruct (publish p energy t) as [[p' pub] bad]. auto.
@@ -378,7 +380,7 @@ Proof.
       * specialize (IH p h). destruct (publish p energy t) as [[p' pub] bad]. cbn in *.
         destruct Hin as [<-|Hin]; [exists o; split; [left; auto|auto]|].
         destruct (IH Hin) as [o' [H1 H2]]. exists o'. split; [right; auto|auto].
-      * destruct (promote p (hash o)) as [p1 ok]. destruct ok.
+      * destruct (promote p (hash o) (oid o)) as [p1 ok]. destruct ok.
         -- specialize (IH p1 h). destruct (publish p1 energy t) as [[p' pub] bad]. cbn in *.
            destruct (IH Hin) as [o' [H1 H2]]. exists o'. split; [right; auto|auto].
         -- destruct (IH p1 h Hin) as [o' [H1 H2]]. exists o'. split; [right; auto|auto].
@@ -386,3 +388,34 @@ Proof.
       destruct Hin as [<-|Hin]; [exists o; split; [left; auto|auto]|].
       destruct (IH Hin) as [o' [H1 H2]]. exists o'. split; [right; auto|auto].
 Qed.
+
+(* ---------------- finding F12: promote before the repair (presence tested by hash only) *)
+Lemma promote_unguarded_same p a :
+  (forall o, find_obj (hash a) (objs p) = Some o -> oid o = oid a) ->
+  promote_unguarded p a = promote p (hash a) (oid a).
+Proof.
+  intro H. unfold promote_unguarded. destruct (find_obj (hash a) (objs p)) as [o|] eqn:E.
+  - rewrite (H o eq_refl), N.eqb_refl. auto.
+  - unfold promote. rewrite E. auto.
+Qed.
+
+(* the schedule: A enters through Fill (not executable), wash captures A and publishes its pricing on it, the tx is
+   removed and submitted again (object B, executable, cost 100 counted by Add), wash promotes the captured A *)
+Definition f12_A : txobj := mkObj 7 10 None false (Some (mkPricing 10 100 5)) 1 false 1.
+Definition f12_B : txobj := mkObj 7 10 None false None 2 false 2.
+Definition f12_pool : pool :=
+  run [SFill [mkObj 7 10 None false None 1 false 1]; SRemove 7; SAdd f12_B true (Some (mkPricing 10 100 5)) 16 (fun _ => 1000)].
+
+Lemma f12_refutes_unguarded :
+  inv f12_pool /\ ~ inv (fst (promote_unguarded f12_pool f12_A)) /\
+  aget (cost (fst (promote_unguarded f12_pool f12_A))) 10 = 200 /\ cost_of (objs f12_pool) 10 = 100 /\
+  (* and the residue stays after the only pooled tx has left *)
+  aget (cost (fst (remove_by_hash (fst (promote_unguarded f12_pool f12_A)) 7))) 10 = 100.
+Proof.
+  split; [apply bookkeeping_inv_thm|]. split; [|vm_compute; auto].
+  intro H. pose proof (inv_holds_at _ 10 H) as X. vm_compute in X. discriminate.
+Qed.
+
+(* with the repair the same schedule leaves the accounting alone *)
+Lemma f12_guarded_noop : promote f12_pool (hash f12_A) (oid f12_A) = (f12_pool, false).
+Proof. vm_compute. reflexivity. Qed.
